@@ -11,7 +11,7 @@ import Proofs.System
 operations leaves, where each operation is performed **by the code as translated from the Go source**: an `Append`
 is the translated plan followed by the translated tail (the created entry gets a fresh non-empty CID; lists
 de-duplicated by the translated `uniqueCIDs`), a `Join` is the translated `difference` followed by the translated
-tail of `Join`, a load (`NewFromJSON` of a replica's entries as some complete fetch delivered them, any order) is the
+tail of `Join`, a `SetIdentity` is the translated clock update, a load (`NewFromJSON` of a replica's entries as some complete fetch delivered them, any order) is the
 translated glue of `fromJSON` followed by the translated core of `NewLog` and adds a replica.  The constructors only say "the translated function returned this"; nothing of the hand-written
 model appears in them except the fuel and the ordering function the log is configured with.
 
@@ -47,6 +47,10 @@ inductive TReach : List Entry → List Log → Prop
               A.entries A.nextIdx A.heads A.clock.id A.clock.time cands B.heads (-1) = some (A.clock.id, t, E', N', H')) :
       TReach U (L.set i { A with entries := E', nextIdx := N', heads := H', clock := ⟨A.clock.id, t⟩ })
 
+  | setIdentity {U : List Entry} {L : List Log} (r : TReach U L) (i : Nat) (l : Log) (hl : L[i]? = some l) (cid : Bytes)
+      (cid' : Bytes) (t' : Int)
+      (hs : Generated.Go.setIdentity l.heads l.clock.id l.clock.time cid = (cid', t')) :
+      TReach U (L.set i { l with clock := ⟨cid', t'⟩ })
   | load {U : List Entry} {L : List Log} (r : TReach U L) (l : Log) (hl : l ∈ L) (fetched : List Entry)
       (hnd : (hashes fetched).Nodup) (hin : ∀ e ∈ fetched, e ∈ U)
       (hset : ∀ h, h ∈ hashes fetched ↔ h ∈ hashes l.entries) (cid : Bytes)
@@ -134,6 +138,23 @@ theorem treach_inv {U : List Entry} {L : List Log} (r : TReach U L) : TInv U L :
       · subst h1 h2; rfl
       · subst h1; exact ih.sameId A hAm b h2
       · subst h2; exact ih.sameId a h1 A hAm
+      · exact ih.sameId a h1 b h2
+  | @setIdentity U L _ i l hl cid cid' t' _ ih =>
+    have hlm : l ∈ L := List.mem_of_getElem? hl
+    have I := ih.inv l hlm
+    -- the invariant does not mention the clock
+    have I' : Inv U { l with clock := ⟨cid', t'⟩ } :=
+      ⟨I.inU, I.nodup, I.closed, I.mono, I.headsIn, I.headsNodup, I.headsSpec, I.headsUnref, I.nextIdx, I.logId⟩
+    refine ⟨ih.uNodup, ih.uNe, ?_, ?_⟩
+    · intro x hx
+      rcases mem_set_cases hx with h1 | h1
+      · subst h1; exact I'
+      · exact ih.inv x h1
+    · intro a ha b hb
+      rcases mem_set_cases ha with h1 | h1 <;> rcases mem_set_cases hb with h2 | h2
+      · subst h1 h2; rfl
+      · subst h1; exact ih.sameId l hlm b h2
+      · subst h2; exact ih.sameId a h1 l hlm
       · exact ih.sameId a h1 b h2
   | @load U L _ l hl fetched hnd hin hset cid ents t H N hf hn ih =>
     obtain ⟨ents', t', H', N', hf', hn', _, _, hinv⟩ := translated_rebuild_json ih.uNodup (ih.inv l hl) fetched hnd hin hset cid
@@ -230,6 +251,19 @@ theorem translated_system_iterator {U : List Entry} {L : List Log} (r : TReach U
     translated_iterator_default I ho hE⟩, ?_⟩
   intro o out hgte hgt h
   exact translated_iterator_sound I o hE hgte hgt out h
+
+/-- **C04 for every replica of every reachable state**: the translated plan of `Append` returns predecessors that are
+    exactly the hashes of the heads (each once), the writer's clock id and a clock time above that of every entry
+    the log holds — its own and those merged in from other writers -/
+theorem translated_system_append_dominates {U : List Entry} {L : List Log} (r : TReach U L) {l : Log} (hl : l ∈ L)
+    (ho : OrderOk l.sortFn l.entries) (pcOpt : Int) :
+    ∃ (next refs : List Hash) (t : Int),
+      Generated.Go.appendPlan (traverseFuel l.entries (sortedHeads l)) l.entries (before l.sortFn) l.heads
+        l.clock.id l.clock.time pcOpt = some (next, refs, l.clock.id, t) ∧
+      next.Nodup ∧ (∀ n, n ∈ next ↔ n ∈ hashes l.heads) ∧ (∀ x ∈ l.entries, x.clock.time < t) := by
+  have T := treach_inv r
+  have I := T.inv l hl
+  exact translated_append_plan I ho (fun e he => T.uNe e (I.inU e he)) pcOpt
 
 /-- progress: in a reachable state the translated `Append` of any replica (ordering a strict total order on its
     entries, any pointer count, a fresh non-empty CID) returns, and its result is reachable -/
